@@ -221,8 +221,9 @@ def report(prop, spec, args, seed, ded, bres, findings, t0):
         for o in t["obligations"]:
             seen_names.add(o["name"])
             if o["expect"] == "sat":
-                # vacuity guards
-                if o["status"] == "failed":
+                # vacuity guards (an unreachable exit next to a failed obligation of the same function is a
+                # consequence of that failure -- e.g. every path now raises -- not a contradictory contract)
+                if o["status"] == "failed" and not any(x["status"] == "failed" and x["expect"] != "sat" for x in t["obligations"]):
                     errors.append("vacuity guard failed: %s (%s)" % (o["name"], o["note"]))
                 per_obl.append(o)
                 continue
